@@ -60,15 +60,19 @@ func (c *EventCache) Add(event *Event) (added bool) {
 	if c.isDeleted(eventKey, event.Pubkey) || c.isDeleted(event.ID, event.Pubkey) {
 		return false
 	}
+	verifPoint("cache.add.checked")
 
 	if added = c.add(eventKey, event); !added {
 		return
 	}
+	verifPoint("cache.add.inserted")
 
 	if event.Kind == 5 {
 		c.addKind5(event)
+		verifPoint("cache.add.kind5")
 		c.deleteByKind5(event)
 	}
+	verifPoint("cache.add.evict")
 
 	if len(c.evs) > c.Cap {
 		if oldest := c.getOldestEvent(); oldest != nil {
@@ -183,6 +187,7 @@ func (c *EventCache) findNeedLock(
 	if c.len() == 0 {
 		return nil
 	}
+	verifPoint("cache.find.locked")
 
 	ret := treemap.NewWithKeyCompare[eventCacheEvsCreatedAtKey, *Event](
 		eventCacheEvsCreatedAtKeyTreeCmp,
